@@ -35,6 +35,10 @@ pub struct Trial {
     pub idskew: Option<u64>,
     pub heapskew: Option<u64>,
     pub thread: bool,
+    /// other work done first on the trial's thread (other documents through the whole pipeline,
+    /// serialised with other settings, introspected, then dropped): what a long-lived process has
+    /// behind it when it meets this input — thread-local and address-keyed state, allocator reuse
+    pub history: Option<u64>,
 }
 
 #[derive(Clone, Debug)]
@@ -73,6 +77,7 @@ impl Case {
                 "idskew": t.idskew.map(|k| k.to_string()),
                 "heapskew": t.heapskew.map(|k| k.to_string()),
                 "thread": t.thread,
+                "history": t.history.map(|k| k.to_string()),
             })).collect::<Vec<_>>(),
         })
     }
@@ -97,6 +102,7 @@ impl Case {
                 idskew: num(&t["idskew"]),
                 heapskew: num(&t["heapskew"]),
                 thread: t["thread"].as_bool().unwrap_or(false),
+                history: num(&t["history"]),
             })
             .collect();
         Ok(Case {
@@ -156,10 +162,22 @@ pub fn amplified(rng: &mut Rng) -> String {
     let _ = writeln!(s, "): Int things: [Thing] u: U }}");
     let _ = writeln!(s, "interface Node {{ id: ID! }}");
     let _ = writeln!(s, "interface Thing {{ name: String label(x: Int): String }}");
+    let _ = writeln!(s, "type Mutation {{ m0: Int m1: Int }}");
+    let _ = writeln!(s, "type Subscription {{ s0: Int s1: Int }}");
+    let _ = writeln!(s, "directive @defer(label: String, if: Boolean! = true) on FRAGMENT_SPREAD | INLINE_FRAGMENT");
     let templates = rng.range(2, 5);
     let mut picked = vec![];
+    // Executable definitions are only validated against a *valid* schema: half of the documents
+    // draw from the templates that keep the type system valid, so that the operation-side rules
+    // actually run; the other half mixes freely (type-system rules, builder, orphan extensions).
+    const KEEP_SCHEMA_VALID: [u64; 14] = [4, 5, 6, 10, 11, 12, 15, 16, 17, 18, 19, 20, 21, 22];
+    let exec_class = rng.chance(1, 2);
     for _ in 0..templates {
-        picked.push(rng.below(16));
+        picked.push(if exec_class {
+            *rng.pick(&KEEP_SCHEMA_VALID)
+        } else {
+            rng.below(23)
+        });
     }
     let mut ops = String::new();
     let mut members = vec![];
@@ -363,6 +381,136 @@ pub fn amplified(rng: &mut Rng) -> String {
                 let _ = writeln!(s, "): Int }}");
                 let _ = writeln!(ops, "query Missing{n} {{ needs{n}(i: {{}}) }}");
             }
+            16 => {
+                // a literal of a *valid* input type with many unknown, duplicate and missing fields,
+                // directly, in a list, nested, in a variable default and in a directive argument
+                let _ = write!(s, "input Ok{n} {{ need: Int!");
+                for i in 0..n {
+                    let _ = write!(s, " k{i}: Int");
+                }
+                let _ = writeln!(s, " inner: Ok{n} list: [Ok{n}!] }}");
+                let _ = writeln!(s, "extend type Query {{ take{n}(i: Ok{n}, l: [Ok{n}]): Int }}");
+                let _ = writeln!(s, "directive @cfg{n}(i: Ok{n}) on FIELD");
+                let mut unknown = String::new();
+                for i in 0..n {
+                    let _ = write!(unknown, "zz{i}: {i} ");
+                }
+                let _ = writeln!(
+                    ops,
+                    "query Unknown{n}($d: Ok{n} = {{{unknown}}}) {{ take{n}(i: {{{unknown}}}, l: [{{{unknown}}}, {{need: 1, inner: {{{unknown}}}}}]) a: take{n}(i: $d) @cfg{n}(i: {{{unknown} k0: 1, k0: 2}}) }}"
+                );
+            }
+            17 => {
+                // the same @defer label in many named fragments, all spread from operations;
+                // @defer reached at the root of several mutations / subscriptions through one fragment
+                for i in 0..n {
+                    let _ = writeln!(ops, "fragment Df{i} on Query {{ ... @defer(label: \"L{}\") {{ q0 }} }}", i % 3);
+                }
+                let _ = write!(ops, "query Defer{n} {{ q0 ");
+                for i in (0..n).rev() {
+                    let _ = write!(ops, "...Df{i} ");
+                }
+                let _ = writeln!(ops, "}}");
+                let _ = writeln!(ops, "fragment RootDeferM{n} on Mutation {{ ... @defer(label: \"m{n}\") {{ m0 }} ... @defer(label: \"m{n}\") {{ m1 }} }}");
+                let _ = writeln!(ops, "fragment RootDeferS{n} on Subscription {{ ... @defer(label: \"s{n}\") {{ s0 }} }}");
+                for i in 0..n.min(8) {
+                    let _ = writeln!(ops, "mutation DM{n}x{i} {{ ...RootDeferM{n} }}");
+                    let _ = writeln!(ops, "subscription DS{n}x{i} {{ ...RootDeferS{n} }}");
+                }
+            }
+            18 => {
+                // one fragment that uses undefined variables, spread by many operations: the
+                // diagnostics of all operations share the locations inside the fragment
+                let _ = write!(ops, "fragment UsesVars{n} on Query {{ many(");
+                for i in 0..n.min(12) {
+                    let _ = write!(ops, "a{i}: $x{i} ");
+                }
+                let _ = writeln!(ops, ") again: many(a0: $x0, a1: $str) }}");
+                for i in 0..n {
+                    // some operations define some of the variables, with varying types
+                    let _ = writeln!(
+                        ops,
+                        "query Op{n}x{i}($x{}: Int, $str: {}, $unused{i}: Int, $unused{i}: String) {{ ...UsesVars{n} ... on Query {{ ...UsesVars{n} }} }}",
+                        i % 12,
+                        ["String", "Int", "[Int]", "Boolean!"][i % 4]
+                    );
+                }
+            }
+            19 => {
+                // subscriptions with many root fields (also through fragments) and introspection
+                // roots; variables of non-input types, bad defaults, duplicate variables
+                let _ = writeln!(ops, "fragment SubRoots{n} on Subscription {{ s0 s1 again: s0 __typename }}");
+                for i in 0..n.min(10) {
+                    let _ = writeln!(ops, "subscription Sub{n}x{i} {{ ...SubRoots{n} s1 __typename x{i}: s0 }}");
+                }
+                let _ = write!(ops, "query BadVars{n}(");
+                for i in 0..n {
+                    let _ = write!(
+                        ops,
+                        "$b{}: {} = {} ",
+                        i % 5,
+                        ["Query", "Int", "[Int!]", "Node", "String!"][i % 5],
+                        ["1", "\"s\"", "[1, null, \"x\"]", "{}", "null"][i % 5]
+                    );
+                }
+                let _ = writeln!(ops, ") {{ many(a0: $b1, a4: $b1, a1: $b2, a2: $b4) }}");
+            }
+            20 => {
+                // leaf / composite mismatches, unknown fields / arguments / types / enum values,
+                // many times each, also inside a fragment used from several places
+                let _ = writeln!(s, "enum Choice{n} {{ {} }}", (0..n).map(|i| format!("C{i}")).collect::<Vec<_>>().join(" "));
+                let _ = writeln!(s, "extend type Query {{ choose{n}(c: Choice{n}, cs: [Choice{n}!]): Choice{n} }}");
+                let _ = write!(ops, "fragment Wrong{n} on Query {{ q0 {{ x }} node things u ");
+                for i in 0..n {
+                    let _ = write!(ops, "nope{i} many(zz{i}: 1) choose{n}(c: NOPE{i}, cs: [C0, NOPE{i}, \"C1\", {i}]) ");
+                }
+                let _ = writeln!(ops, "... on Gone{n} {{ a }} ... on Choice{n} {{ b }} }}");
+                let _ = writeln!(ops, "query Wrongs{n}a {{ ...Wrong{n} }}");
+                let _ = writeln!(ops, "query Wrongs{n}b {{ ... on Query {{ ...Wrong{n} }} ...Wrong{n} }}");
+            }
+            21 => {
+                // fragment cycles through several paths, duplicate fragment names, spreads that can
+                // never apply, fragments on leaf types, unused fragments that spread each other
+                for i in 0..n {
+                    let _ = writeln!(
+                        ops,
+                        "fragment Cy{n}x{i} on Query {{ q0 ...Cy{n}x{} ...Cy{n}x{} ...Cy{n}x{} }}",
+                        (i + 1) % n,
+                        (i * 7 + 3) % n,
+                        i
+                    );
+                }
+                let _ = writeln!(ops, "fragment Cy{n}x0 on Query {{ q0 }}");
+                let _ = writeln!(ops, "fragment OnLeaf{n} on Int {{ x }}");
+                let _ = write!(ops, "query Cycles{n} {{ ...Cy{n}x{} node {{ ...OnLeaf{n} ", n / 2);
+                for i in 0..n.min(10) {
+                    let _ = write!(ops, "...Cy{n}x{i} ... on Mutation {{ m0 }} ");
+                }
+                let _ = writeln!(ops, "}} }}");
+            }
+            22 => {
+                // field merging: differing aliases, types and argument sets under one response key,
+                // repeated in several sibling fragments, so that several conflicts share locations
+                let _ = writeln!(s, "type Pair{n} {{ a: Int b: String c(x: Int): Int d: [Int] e: Int! }}");
+                let _ = writeln!(s, "extend type Query {{ pair{n}: Pair{n} pairs{n}: [Pair{n}] }}");
+                let _ = write!(ops, "query Conflicts{n} {{ pair{n} {{ ");
+                for i in 0..n.min(12) {
+                    let _ = write!(ops, "k: {} ", ["a", "b", "c(x: 1)", "c(x: 2)", "d", "e"][i % 6]);
+                }
+                let _ = write!(ops, "}} ");
+                for i in 0..n.min(12) {
+                    let _ = write!(ops, "...Cf{n}x{i} ");
+                }
+                let _ = writeln!(ops, "}}");
+                for i in 0..n.min(12) {
+                    let _ = writeln!(
+                        ops,
+                        "fragment Cf{n}x{i} on Query {{ pair{n} {{ k: {} j: {} }} p: pair{n} {{ a }} p: pairs{n} {{ a }} }}",
+                        ["c(x: 3)", "a", "d", "e", "b"][i % 5],
+                        ["a", "b", "e"][i % 3]
+                    );
+                }
+            }
             _ => {
                 // fragments on undefined / wrong types, spreads that cannot apply, cycles
                 for i in 0..n {
@@ -474,6 +622,11 @@ pub fn gen_trials(rng: &mut Rng, n: usize) -> Vec<Trial> {
                 None
             },
             thread: rng.chance(1, 3),
+            history: if rng.chance(1, 3) {
+                Some(rng.next_u64())
+            } else {
+                None
+            },
         });
     }
     trials
@@ -488,6 +641,9 @@ fn run_trial(input: &Input, t: &Trial) -> Result<Vec<(&'static str, String)>, St
             for _ in 0..r.range(1, 64) {
                 held.push(vec![0u8; r.range(1, 4096) as usize]);
             }
+        }
+        if let Some(seed) = t.history {
+            history_work(seed);
         }
         FileId::__verif_set_next(t.idskew.unwrap_or(3));
         ahash::sim::set_stream(t.rekey);
@@ -511,6 +667,41 @@ fn run_trial(input: &Input, t: &Trial) -> Result<Vec<(&'static str, String)>, St
     } else {
         work(input, t)
     }
+}
+
+/// Unrelated earlier work on the current thread; its results are dropped. Two or three corpus
+/// documents (chosen by the seed) go through the whole pipeline, which includes serialisation with
+/// non-default indentation settings and full introspection.
+fn history_work(seed: u64) {
+    let files = corpus();
+    if files.is_empty() {
+        return;
+    }
+    let mut r = Rng::new(seed);
+    ahash::sim::set_stream(Some(seed | 1));
+    for _ in 0..r.range(2, 3) {
+        let f = &files[r.usize(files.len())];
+        let _ = std::panic::catch_unwind(std::panic::AssertUnwindSafe(|| {
+            let _ = bundle(&Input::File(f.clone()));
+        }));
+    }
+    // and a small schema with default values of every kind, introspected and dropped, so that
+    // freed definitions are likely to be reused by the input that follows
+    let _ = std::panic::catch_unwind(std::panic::AssertUnwindSafe(|| {
+        let n = r.range(1, 30);
+        let mut sdl = String::from("type Query { f(");
+        for i in 0..n {
+            let _ = write!(sdl, "a{i}: Int = {} ", 1_000_000 + i);
+        }
+        let _ = write!(sdl, "): Int }} input I {{ ");
+        for i in 0..n {
+            let _ = write!(sdl, "k{i}: String = \"h{i}\" ");
+        }
+        sdl.push('}');
+        let _ = bundle(&Input::Text(sdl));
+    }));
+    let _ = crate::exec::take_last_panic();
+    ahash::sim::set_stream(None);
 }
 
 pub struct CaseResult {
@@ -560,7 +751,20 @@ fn floor_boundary(s: &str, mut i: usize) -> usize {
     i
 }
 
+/// Every case runs on a thread of its own, so that the thread-local state a trial meets is exactly
+/// what the earlier trials of the same case (and its own `history`) left behind — which is what a
+/// replay file reproduces — and never what other units of the batch did.
 pub fn exec_case(case: &Case) -> Result<CaseResult, String> {
+    let case = case.clone();
+    std::thread::Builder::new()
+        .stack_size(64 << 20)
+        .spawn(move || exec_case_here(&case))
+        .map_err(|e| e.to_string())?
+        .join()
+        .map_err(|_| "case thread panicked".to_string())?
+}
+
+fn exec_case_here(case: &Case) -> Result<CaseResult, String> {
     crate::props::c31::warm_up();
     let mut counters: Vec<(String, u64)> = vec![];
     let mut add = |k: &str, v: u64| counters.push((k.to_string(), v));
@@ -598,6 +802,9 @@ pub fn exec_case(case: &Case) -> Result<CaseResult, String> {
         }
         if t.thread {
             add("perturb.thread", 1);
+        }
+        if t.history.is_some() {
+            add("perturb.history", 1);
         }
         if violation.is_none() {
             if let Some((stage, what)) = first_difference(&base, &out) {
@@ -638,6 +845,9 @@ fn trial_brief(t: &Trial) -> String {
     }
     if t.thread {
         parts.push("thread");
+    }
+    if t.history.is_some() {
+        parts.push("history");
     }
     parts.join("+")
 }
@@ -944,10 +1154,11 @@ impl Property for C22 {
         };
         // simplify the differing trial: drop perturbations one at a time
         if best.trials.len() >= 2 {
-            for which in 0..4 {
+            for which in 0..5 {
                 let mut c = best.clone();
                 let t = &mut c.trials[1];
                 match which {
+                    4 => t.history = None,
                     0 => t.thread = false,
                     1 => t.heapskew = None,
                     2 => t.idskew = None,
